@@ -313,8 +313,10 @@ def eval_cfg(toks, cfgset):
                 return not args[0]
             raise Lost("unknown cfg combinator %s" % name)
         if pos[0] < len(toks) and toks[pos[0]].text == "=":
+            val = toks[pos[0] + 1].text.strip('"')
             pos[0] += 2
-            return False      # feature = "x", target_os = "y", ... : none enabled
+            # feature = "x", target_os = "y", ... : none enabled unless the unit states it (`//@ cfg feature=x`)
+            return ("%s=%s" % (name, val)) in cfgset
         return name in cfgset
     return pred()
 
@@ -426,7 +428,14 @@ def rule_pass(text, log, cfgset):
                 j = c + 1
                 while j < n and toks[j].text == "#" and toks[j + 1].text == "[":
                     j = groups[j + 1] + 1
-                if toks[j].text in ("if", "for", "while", "match", "loop", "{", "fn", "impl", "mod"):
+                if toks[j].text == "{":
+                    # a cfg-false block STATEMENT `#[cfg(..)] { .. }`: the whole block is not compiled in the stated
+                    # configuration - remove attribute(s) and block
+                    k = groups[j] + 1
+                    rec("R6-cfg-false-block", toks[i].start, toks[k - 1].end, "")
+                    consumed.update(range(i, k))
+                    continue
+                if toks[j].text in ("if", "for", "while", "match", "loop", "fn", "impl", "mod"):
                     raise Lost("cfg-false block element inside an extracted item (%s): not supported" % text[toks[i].start:toks[c].end])
                 k = j
                 while k < n:
@@ -1104,6 +1113,12 @@ def process_block(repo, clauses, log, items_log, cfgset, variant="main"):
     DROP_DERIVES = saved + extra_drop
     R13_ACTIVE[0] = (it.kind == "fn")
     RUNTIME_ASSERT[0] = any(k == "runtime_assert" for k, _ in clauses)
+    # `//@ cfg test, feature=delta_validate`: this item is extracted under the stated configuration PLUS these names
+    # (logged; a unit that does this must say in its header which build configuration it speaks about)
+    cfg_extra = tuple(x.strip() for k, r in clauses if k == "cfg" for x in r.replace(",", " ").split() if x.strip())
+    if cfg_extra:
+        cfgset = tuple(cfgset) + cfg_extra
+        sublog.append({"rule": "cfg-override", "before": "configuration " + ", ".join(cfgset[:len(cfgset) - len(cfg_extra)]), "after": "plus " + ", ".join(cfg_extra)})
     try:
         text = rule_pass(text, sublog, cfgset)
     finally:
@@ -1152,7 +1167,7 @@ def process_block(repo, clauses, log, items_log, cfgset, variant="main"):
         for k, r in clauses[1:]:
             if k == "attr":
                 text = r + "\n" + text
-            elif k in ("end", "inherent", "implhdr", "variants", "r2", "mirror", "drop_derive", "runtime_assert", "fields"):
+            elif k in ("end", "inherent", "implhdr", "variants", "r2", "mirror", "drop_derive", "runtime_assert", "fields", "cfg"):
                 pass
             else:
                 raise Lost("%s: contract clauses on a non-fn item (%s)" % (where, k))
